@@ -8,6 +8,6 @@ cp -r /repo/mokapot "$T/mokapot"
 sed -i "$SED" "$T/$FILE"
 if diff -q /repo/$FILE "$T/$FILE" >/dev/null; then echo "MUTANT DID NOT CHANGE THE FILE"; rm -rf "$T"; exit 9; fi
 diff /repo/$FILE "$T/$FILE" | head -8
-VERIF_REPO=$T VERIF_EVIDENCE_DIR=$T/ev VERIF_REPLAY_DIR=$T/replays "$(dirname "$0")/../check" "$ID" --tier "$TIER" "$@" 2>&1 | grep -v "Warning\|^  \"\"\"" | grep -v "^  [a-zA-Z_]*\[" | tail -8
+VERIF_REPO=$T VERIF_EVIDENCE_DIR=$T/ev VERIF_REPLAY_DIR=$T/replays "$(dirname "$0")/../check" "$ID" --tier "$TIER" "$@" 2>&1 | grep -E "^(VIOLATION|HARNESS|INCONCL|UNSUPP|KNOWN|C[0-9]+ |  harness=)" | cut -c1-600 | tail -8
 RC=$?
 rm -rf "$T"
